@@ -70,7 +70,7 @@ def run_unit(unit, outdir, timeout_ms, workers, second=None):
         cmd += ["-second", second]
     t0 = time.time()
     try:
-        r = sh(cmd, timeout=unit.flags.get("_wall", 1500 if timeout_ms <= 60000 else 7200))
+        r = sh(cmd, timeout=unit.flags.get("_wall", 600 if timeout_ms <= 60000 else 7200))
     except subprocess.TimeoutExpired:
         sh(["pkill", "-x", "gosmt"])
         return {"entry": unit.entry, "status": "error", "err": "wall-clock limit exceeded", "obligations": [], "wall_s": time.time() - t0}
